@@ -118,7 +118,7 @@ LINE_COUNTS = [[2, 2, 2, 2, 2], [1, 0, 1, 0, 1], [0, 3, 1, 0, 2], [0, 0, 0, 0, 0
 
 
 def many_boxes(layout):
-    """pages with 12-16 regions (ids r10.. : more than one digit), as (x0, y0, x1, y1) boxes on the 1000 x 100 page"""
+    """pages with 12-40 regions (ids r10.. : more than one digit), as (x0, y0, x1, y1) boxes (on the 1000 x 100 page, except the spiral)"""
     name = MANY_LAYOUTS[layout]
     if name == 'two-columns-of-seven':
         return [(40 + 480 * c, 4 + 13 * r, 460 + 480 * c, 14 + 13 * r) for r in range(7) for c in range(2)]
@@ -127,10 +127,24 @@ def many_boxes(layout):
         return [cells[(5 * i + 3) % 16] for i in range(16)]
     if name == 'staircase-overlapping':
         return [(20 + 60 * i, 5 + 6 * i, 200 + 60 * i, 25 + 6 * i) for i in range(12)]
+    if name == 'nested-spiral-of-40':
+        # bands cut in turn from the top, left, bottom and right of what is left (25 % of it, 3 % gap): 40 levels of nesting
+        out, (x0, y0, x1, y1) = [], (0.0, 0.0, 20000.0, 20000.0)
+        for k in range(39):
+            w, h = x1 - x0, y1 - y0
+            if k % 4 == 0:
+                out.append((x0, y0, x1, y0 + 0.25 * h)); y0 += 0.28 * h
+            elif k % 4 == 1:
+                out.append((x0, y0, x0 + 0.25 * w, y1)); x0 += 0.28 * w
+            elif k % 4 == 2:
+                out.append((x0, y1 - 0.25 * h, x1, y1)); y1 -= 0.28 * h
+            else:
+                out.append((x1 - 0.25 * w, y0, x1, y1)); x1 -= 0.28 * w
+        return out + [(x0, y0, x1, y1)]
     return [(30, 3 + 7 * i, 900, 8 + 7 * i) for i in range(13)][::-1]            # 'one-column-bottom-up'
 
 
-MANY_LAYOUTS = ['two-columns-of-seven', 'grid-4x4-shuffled', 'staircase-overlapping', 'one-column-bottom-up']
+MANY_LAYOUTS = ['two-columns-of-seven', 'grid-4x4-shuffled', 'staircase-overlapping', 'one-column-bottom-up', 'nested-spiral-of-40']
 
 
 def build_page(polygons, skew_deg, lv=0, ints=False, lineids=0, rtl=False):
